@@ -94,6 +94,17 @@ fn run_twice(opts1: Opts, opts2: Opts, t: &Tree, cx: &mut Cx) -> CaseResult {
         "written_blocks = {}",
         stats.written_blocks
     );
+    // "reuses its recorded entries": every file is recognised as unchanged, none is read
+    // again (content that is stored again and then deduplicated writes no block either)
+    ensure!(
+        stats.new_files == 0 && stats.modified_files == 0 && stats.unmodified_files == stats.files,
+        "C14/unchanged-tree-files-read-again",
+        "second backup of an untouched tree: {} files, {} unmodified, {} modified, {} new",
+        stats.files,
+        stats.unmodified_files,
+        stats.modified_files,
+        stats.new_files
+    );
     let ra = format::scan(&w.arch);
     let a0 = addrs_by_path(&ra, 0);
     let a1 = addrs_by_path(&ra, 1);
@@ -312,6 +323,20 @@ fn enumerate(_tier: Tier, idx: u32, of: u32, cx: &mut Cx) -> CaseResult {
     cx.add_evals(1);
     cx.inner_nontrivial += 1;
 
+    // an index hunk of more than 32 MiB as the basis of the second backup
+    crate::engine::heartbeat();
+    let (opts, tree) = crate::probes::big_hunk_tree();
+    let sub = cx.dir("big-hunk");
+    std::fs::create_dir_all(&sub).unwrap();
+    let mut cx2 = crate::engine::sub_cx(cx, sub.clone());
+    run_twice(opts, opts, &tree, &mut cx2).map_err(|mut f| {
+        f.signature = format!("{}/probe-big-hunk", f.signature);
+        f
+    })?;
+    crate::engine::force_remove(&sub);
+    cx.add_evals(1);
+    cx.inner_nontrivial += 1;
+
     crate::engine::heartbeat();
     let o = Opts { hunk: 2, block: 1 << 16, cap: 1 << 20 };
     let sc = Scenario {
@@ -386,7 +411,7 @@ pub fn prop() -> Prop<Case> {
     Prop {
         id: "C14",
         level: "exploration",
-        rule: "three case kinds. Twice: (options1, options2, tree) backed up twice untouched: the logged storage trace of run 2 has no write under d/, written_blocks==0, independently decoded addresses per path identical; non-trivial = tree has a combined block and a multi-block file. Hist: history as C02 with every storage operation logged with the pre-state of its path: no write to a d/ path that exists with non-zero length; non-trivial = >=2 backups with deduplication. Resume: scenario (prefix<=3 ops, edits, options) x every crash point of the backup's trace (before each mutating op + torn variant for writes; quick tier thins to <=60 per scenario), then a resumed backup of the unchanged source: block paths successfully written by run 1 are not written by run 2, every entry the interrupted band recorded keeps its addresses in the resumed band, and every file unchanged (size, mtime) with respect to the stitched basis at the moment of the crash is recorded with the basis entry's addresses; non-trivial = crash point after >=1 block write (counted per (scenario, crash point), distinct by construction). Fixed scale probes per run: the twice-relation on files stored as single blocks of several MiB (two of them identical), and the resume relation at 20 crash points of a backup over a basis band of 200 two-entry hunks with one file added at the front, and the resume relation at 8 crash points when the interrupted band sits 12 000 ids above its basis",
+        rule: "three case kinds. Twice: (options1, options2, tree) backed up twice untouched: the logged storage trace of run 2 has no write under d/, written_blocks==0, independently decoded addresses per path identical; non-trivial = tree has a combined block and a multi-block file. Hist: history as C02 with every storage operation logged with the pre-state of its path: no write to a d/ path that exists with non-zero length; non-trivial = >=2 backups with deduplication. Resume: scenario (prefix<=3 ops, edits, options) x every crash point of the backup's trace (before each mutating op + torn variant for writes; quick tier thins to <=60 per scenario), then a resumed backup of the unchanged source: block paths successfully written by run 1 are not written by run 2, every entry the interrupted band recorded keeps its addresses in the resumed band, and every file unchanged (size, mtime) with respect to the stitched basis at the moment of the crash is recorded with the basis entry's addresses; non-trivial = crash point after >=1 block write (counted per (scenario, crash point), distinct by construction). Fixed scale probes per run: the twice-relation on files stored as single blocks of several MiB (two of them identical) and on a version whose single index hunk exceeds 32 MiB, and the resume relation at 20 crash points of a backup over a basis band of 200 two-entry hunks with one file added at the front, and the resume relation at 8 crash points when the interrupted band sits 12 000 ids above its basis",
         assumptions: &[
             "zero-length leftovers of a killed write may be completed (the documented exception)",
             "crash granularity = one transport operation",
